@@ -321,6 +321,9 @@ def lookup_sources(prog):
                     v = G.describe(b, t["args"][1])
                     if v.kind == "const":
                         out.add(v.v)
+                elif nm.endswith(("Option::map", "Option::and_then", "Option::as_ref", "Option::copied", "Option::cloned", "Option::filter", "Option::take", "Try>::branch")) and t["args"]:
+                    # the text handed on is (a function of) the text of the same groups
+                    out |= option_sources(b, mir.op_place(t["args"][0]), depth - 1)
                 elif nm.endswith(("Option::or_else", "Option::or")):
                     out |= option_sources(b, mir.op_place(t["args"][0]), depth - 1)
                     a1 = t["args"][1]
@@ -369,6 +372,10 @@ def lookup_sources(prog):
                         yield from walk(mir.op_place(o), depth - 1)
 
         for kind, x in walk(mir.op_place(t["args"][1]), 8):
+            if kind == "payload":
+                # the name itself is the payload of an Option (`if let Some(name) = captured_name(caps)`)
+                res[which] |= option_sources(body, {"l": x["l"], "p": []}, 8)
+                continue
             if kind != "call" or strip_generics(mir.callee_name(x) or "") != "regex::Match::as_str":
                 continue
             for kind2, y in walk(mir.op_place(x["args"][0]), 8):
